@@ -93,7 +93,14 @@ def _judge(H, net):
     subsets = [frozenset(c) for k in range(1, len(used) + 1) for c in itertools.combinations(used, k)]
     sip = [S for S in subsets if all((not (p & S)) or (r & S) for r, p in rx)]
     trp = [S for S in subsets if all((not (r & S)) or (p & S) for r, p in rx)]
-    for view, obj in (("hypergraph", H), ("bipartite", hypergraph_to_bipartite(H))):
+    bip = hypergraph_to_bipartite(H)
+    rev = type(bip)()  # the same bipartite graph, nodes and arcs inserted in the opposite order (hand-built / relabelled inputs)
+    rev.graph.update(bip.graph)
+    for v, d in reversed(list(bip.nodes(data=True))):
+        rev.add_node(v, **dict(d))
+    for u, v, d in reversed(list(bip.edges(data=True))):
+        rev.add_edge(u, v, **dict(d))
+    for view, obj in (("hypergraph", H), ("bipartite", bip), ("bipartite_reversed_insertion", rev)):
         for k in [None] + list(range(1, len(used) + 1)):
             want_s = minimal({S for S in sip if k is None or len(S) <= k})
             want_t = minimal({S for S in trp if k is None or len(S) <= k})
